@@ -47,6 +47,7 @@ func sortedKeys[V any](m map[string]V) []string {
 func newInterp(p *core.Program, fn *core.FuncRef) *absint.Interp {
 	in := &absint.Interp{Info: fn.Info(), Prog: p}
 	in.Hooks.Inline = helperInline(p, fn.Pkg.PkgPath, fn.Obj)
+	in.Hooks.FreeVar = func(v *types.Var) ast.Expr { return pureDefinition(fn, v) }
 	in.Hooks.FreeClosure = func(v *types.Var) *ast.FuncLit {
 		// a local of the enclosing function bound exactly once, to a literal (`limitReached := func() bool {…}`)
 		info := fn.Info()
@@ -358,6 +359,116 @@ func helperClosure(p *core.Program, fn *core.FuncRef) []*core.FuncRef {
 		})
 	}
 	return out
+}
+
+// pureDefinition: for a local of fn that is defined once, by an expression without calls or effects over operands
+// that are themselves never reassigned (parameters, such locals, constants, their fields), that expression. A literal
+// of fn that captures the variable sees exactly that value, so an interpretation of the literal on its own may put
+// the definition in the variable's place — `n := int64(cfg.Size)` hoisted out of a callback reads as int64(cfg.Size).
+func pureDefinition(fn *core.FuncRef, v *types.Var) ast.Expr {
+	if fn == nil || fn.Decl == nil || fn.Decl.Body == nil || v.Pos() < fn.Decl.Body.Pos() || v.Pos() > fn.Decl.Body.End() {
+		return nil
+	}
+	info := fn.Info()
+	def := singleDef(info, fn.Decl.Body, v)
+	if def == nil {
+		return nil
+	}
+	var pure func(e ast.Expr, depth int) bool
+	stable := func(o types.Object) bool {
+		switch x := o.(type) {
+		case *types.Const, *types.Nil:
+			return true
+		case *types.Var:
+			if x.IsField() {
+				return true
+			}
+			if x.Pkg() != nil && x.Parent() == x.Pkg().Scope() {
+				return false // package-level state may change
+			}
+			// a parameter or local that is never written after its definition
+			writes := 0
+			ast.Inspect(fn.Decl.Body, func(n ast.Node) bool {
+				switch s := n.(type) {
+				case *ast.AssignStmt:
+					for _, l := range s.Lhs {
+						// the variable itself, or a field or element of it
+						for {
+							switch y := core.Unparen(l).(type) {
+							case *ast.SelectorExpr:
+								l = y.X
+								continue
+							case *ast.IndexExpr:
+								l = y.X
+								continue
+							case *ast.StarExpr:
+								l = y.X
+								continue
+							}
+							break
+						}
+						if id, ok := core.Unparen(l).(*ast.Ident); ok && info.Uses[id] == x {
+							writes++
+						}
+					}
+				case *ast.IncDecStmt:
+					if id, ok := core.Unparen(s.X).(*ast.Ident); ok && info.Uses[id] == x {
+						writes++
+					}
+				case *ast.UnaryExpr:
+					if id, ok := core.Unparen(s.X).(*ast.Ident); ok && s.Op == token.AND && info.Uses[id] == x {
+						writes++
+					}
+				case *ast.RangeStmt:
+					for _, e := range []ast.Expr{s.Key, s.Value} {
+						if id, ok := e.(*ast.Ident); ok && (info.Uses[id] == x || info.Defs[id] == x) {
+							writes++
+						}
+					}
+				}
+				return true
+			})
+			return writes == 0
+		}
+		return false
+	}
+	pure = func(e ast.Expr, depth int) bool {
+		if depth > 8 {
+			return false
+		}
+		switch x := core.Unparen(e).(type) {
+		case *ast.BasicLit:
+			return true
+		case *ast.Ident:
+			o := info.Uses[x]
+			return o != nil && stable(o)
+		case *ast.SelectorExpr:
+			if id, ok := x.X.(*ast.Ident); ok {
+				if _, isPkg := info.Uses[id].(*types.PkgName); isPkg {
+					_, isConst := info.Uses[x.Sel].(*types.Const)
+					return isConst
+				}
+			}
+			if sel := info.Selections[x]; sel != nil && sel.Kind() != types.FieldVal {
+				return false
+			}
+			return pure(x.X, depth+1)
+		case *ast.BinaryExpr:
+			return pure(x.X, depth+1) && pure(x.Y, depth+1)
+		case *ast.UnaryExpr:
+			return (x.Op == token.SUB || x.Op == token.NOT || x.Op == token.ADD) && pure(x.X, depth+1)
+		case *ast.CallExpr:
+			// a conversion
+			if tv, ok := info.Types[x.Fun]; ok && tv.IsType() && len(x.Args) == 1 {
+				return pure(x.Args[0], depth+1)
+			}
+		}
+		return false
+	}
+	if !pure(def, 0) {
+		return nil
+	}
+	return def
 }
 
 // singleDef: the expression a local variable is defined by, when it is assigned exactly once under root (its
